@@ -4,15 +4,13 @@
    parameter.  [deval f a] is the table entry at the state-index assignment a; the result's state-name
    dict is phi.state_names.update(phi1.state_names), so names follow indices (see C04_product_pointwise).
 
-   NOT proved (modelled, extracted and checked against pgmpy on every run, see harness/c04.py):
-     the full C04_eq_iff (the modelled == is true iff same variable set, same state sets and every named assignment
-        within atol + rtol*|b|): only C04_eq_iff_partial below (operands needing no axis/state re-alignment) is proved;
-        C04_hash_respects_eq; maximize for tables with negative entries (C04_maximize is stated in
-        the max-product semiring, whose laws need non-negative tables). *)
+   NOT proved: hash equality for exactly-equal factors listed in DIFFERENT axis orders (only the same-axis-order case,
+     C04_hash_respects_eq_partial; for factors equal up to STATE order the statement is false - C04_hash_eq_inconsistent). *)
 From Coq Require Import List Arith Lia PeanoNat Bool ZArith QArith Qcanon.
 From PV Require Import Base.Semiring Base.Ravel Base.FinSum Base.RefFactor
   C04.Tensor C04.TensorFacts C04.Model C04.Spec C04.ProofsProd C04.ProofsMarg C04.ProofsAlg C04.ProofsStore C04.ProofsNamed
-  C04.ProofsReduce C04.ProofsAlign C04.ProofsDivSum C04.ProofsAlg2 C04.ProofsNorm C04.ProofsEq C04.ProofsDot.
+  C04.ProofsReduce C04.ProofsAlign C04.ProofsDivSum C04.ProofsAlg2 C04.ProofsNorm C04.ProofsEq C04.ProofsDot
+  C04.MaxCsr C04.ProofsEqAll C04.ProofsEqNamed C04.ProofsMaxAny C04.ProofsHash.
 Import ListNotations.
 Local Close Scope Qc_scope.
 Local Close Scope Q_scope.
@@ -130,8 +128,8 @@ Theorem C04_factor_product_fold (R : csr) (card : var -> nat) (r : list (dfactor
 Proof. exact (fp_go_pointwise R card r acc os h). Qed.
 Print Assumptions C04_factor_product_fold.
 
-(* out-of-place purity in the store model of copy(): whatever is done afterwards to the copy through its own
-   variables / cardinality / values / dict objects, the operand's observable content is unchanged *)
+(* out-of-place purity in the store model of copy() (fresh variables / cardinality / values / dict objects and fresh
+   inner state lists, as pgmpy does since c8361ae): whatever is done afterwards to the copy through its own objects, the operand's observable content is unchanged *)
 Theorem C04_out_of_place_pure (s : store) (lf : nat) s' lf' (ms : list mutation) :
   store_ok s lf -> store_copy s lf = Some (s', lf') ->
   observe (fold_left (fun st m => store_mutate st lf' m) ms s') lf = observe s lf.
@@ -342,3 +340,72 @@ Example C04_factordict_dot_nonvacuous :
      [({| dvars := [0; 1]; dcard := [2; 3]; dstates := []; dvals := tbuild [2; 3] (fun _ => 1%Qc) |},
        {| dvars := [1; 0]; dcard := [3; 2]; dstates := []; dvals := tbuild [3; 2] (fun _ => 1%Qc) |}, [0; 1])] = Ok x.
 Proof. eexists. vm_compute. reflexivity. Qed.
+
+(* == in full: for well formed operands (same global cardinalities) whose state dictionaries give every variable of
+   self a duplicate-free state list of the right length (sts for self, sto for other - in ANY order, the variable lists
+   in ANY axis order), the modelled DiscreteFactor.__eq__ (set test on the scopes, swapaxes alignment loop with its
+   cardinality swaps, per-variable state-SET test and re-ordering by integer-list indexing, shape test, allclose,
+   cardinality test) returns true IF AND ONLY IF the scopes are equal as sets, every variable has the same state-name
+   SET in both, and at EVERY named assignment nu the value of other is within the tolerance relation of the value of
+   self:  |other(nu) - self(nu)| <= atol + rtol*|self(nu)|  (closeb, exact arithmetic, C04_closeb_spec);
+   with atol = rtol = 0 this is pointwise equality of the two functions on named assignments. *)
+Theorem C04_eq_iff (card : var -> nat) (self other : dfactor Qc) (sts sto : var -> list name) (atol rtol : Qc) :
+  dwf card self -> dwf card other ->
+  (forall v, In v (dvars self) -> dlookup v (dstates self) = Some (sts v) /\ NoDup (sts v) /\ length (sts v) = card v) ->
+  (forall v, In v (dvars self) -> dlookup v (dstates other) = Some (sto v) /\ NoDup (sto v) /\ length (sto v) = card v) ->
+  (factor_eqb atol rtol self other = Ok true <->
+   ((forall v, In v (dvars self) <-> In v (dvars other)) /\
+    (forall v, In v (dvars self) -> forall nm, In nm (sts v) <-> In nm (sto v)) /\
+    forall nu : var -> name, (forall v, In v (dvars self) -> In (nu v) (sts v)) ->
+      closeb atol rtol (neval 0%Qc other nu) (neval 0%Qc self nu) = true)).
+Proof. intros H1 H2 H3 H4. exact (factor_eqb_iff_named card self other sts sto H1 H2 H3 H4 atol rtol). Qed.
+Print Assumptions C04_eq_iff.
+
+(* the same at state indices: other is read at the index carrying the NAME that self gives to its index *)
+Theorem C04_eq_iff_indices (card : var -> nat) (self other : dfactor Qc) (sts sto : var -> list name) (atol rtol : Qc) :
+  dwf card self -> dwf card other ->
+  (forall v, In v (dvars self) -> dlookup v (dstates self) = Some (sts v) /\ NoDup (sts v) /\ length (sts v) = card v) ->
+  (forall v, In v (dvars self) -> dlookup v (dstates other) = Some (sto v) /\ NoDup (sto v) /\ length (sto v) = card v) ->
+  (factor_eqb atol rtol self other = Ok true <->
+   ((forall v, In v (dvars self) <-> In v (dvars other)) /\ (forall v, In v (dvars self) -> seteq sts sto v = true) /\
+    forall a, bounded card self a ->
+      closeb atol rtol (deval 0%Qc other (mix sts sto (dvars self) a)) (deval 0%Qc self a) = true)).
+Proof. intros H1 H2 H3 H4. exact (factor_eqb_iff_idx card self other sts sto H1 H2 H3 H4 atol rtol). Qed.
+Print Assumptions C04_eq_iff_indices.
+
+(* maximize for tables with entries of ANY sign, in the max-product semiring with a bottom element (zero = -inf, so the
+   finite "sum" is the true maximum; MaxCsr.v): the result entry is attained by, and bounds, the values of f over all
+   assignments that agree with a outside the removed variables *)
+Theorem C04_maximize_any_sign (card : var -> nat) (f : dfactor Qc) X h :
+  dwf card f -> maximize Qcm_csr (lift_factor f) X = Ok h ->
+  dwf card h /\ dvars h = vminus (dvars f) X /\
+  forall a, valid card a ->
+    exists M, deval None h a = Some M /\
+      (forall b, valid card b -> agree_outside (vinter (dvars f) X) a b -> (deval 0%Qc f b <= M)%Qc) /\
+      exists b, valid card b /\ agree_outside (vinter (dvars f) X) a b /\ deval 0%Qc f b = M.
+Proof. exact (maximize_any_sign card f X h). Qed.
+Print Assumptions C04_maximize_any_sign.
+
+Example C04_maximize_negative_example :
+  exists h, maximize Qcm_csr (lift_factor {| dvars := [0; 1]; dcard := [2; 2]; dstates := [(0, [0%Z; 1%Z]); (1, [0%Z; 1%Z])];
+                       dvals := {| tshape := [2; 2]; tdata := [(-(1 + 1 + 1))%Qc; (-(1))%Qc; (-(1 + 1))%Qc; (-(1 + 1 + 1 + 1))%Qc] |} |}) [1] = Ok h
+            /\ tdata (dvals h) = [Some (-(1))%Qc; Some (-(1 + 1))%Qc].
+Proof. eexists. split; vm_compute; reflexivity. Qed.
+
+(* __hash__ (as far as the model covers it: the tuple the final hash is computed from).  PARTIAL: same variable order.
+   Full statement not proved: exactly equal factors in different AXIS orders have equal keys (needs canonicity of the sort
+   of the variable hashes and the hash-driven alignment loop). *)
+Theorem C04_hash_respects_eq_partial (card : var -> nat) (hv : var -> Z) (f g : dfactor Qc) :
+  dwf card f -> dwf card g -> dvars f = dvars g -> dkeys (dstates f) = dkeys (dstates g) ->
+  (forall a, (forall v, In v (dvars f) -> a v < card v) -> deval 0%Qc f a = deval 0%Qc g a) ->
+  hash_key hv f = hash_key hv g.
+Proof. exact (hash_respects_eq_same_axes card hv f g). Qed.
+Print Assumptions C04_hash_respects_eq_partial.
+
+(* REFUTED beyond that: == (even with zero tolerance) holds for factors equal up to STATE order, whose hash keys differ;
+   pgmpy behaves the same (DiscreteFactor(['A'],[2],[1,2],{'A':['x','y']}) vs DiscreteFactor(['A'],[2],[2,1],{'A':['y','x']})) *)
+Theorem C04_hash_eq_inconsistent :
+  exists (f g : dfactor Qc) (hv : var -> Z),
+    factor_eqb 0%Qc 0%Qc f g = Ok true /\ hash_key hv f <> hash_key hv g.
+Proof. exact hash_eq_inconsistent. Qed.
+Print Assumptions C04_hash_eq_inconsistent.
